@@ -1,5 +1,34 @@
-(* STUB: Impl model of mcfg.rs -- to be written *)
-From Coq Require Import NArith List.
-From ACPI Require Import Lib.Bytes Lib.Sx Lib.Machine Impl.Checksum Impl.Table Impl.Fields Impl.Run.
+(* Impl model of mcfg.rs *)
+From Coq Require Import NArith List Bool.
+From ACPI Require Import Lib.Bytes Lib.Sx Lib.Machine Impl.Checksum Impl.Table Impl.Fields Impl.Run Impl.Madt.
 Import ListNotations.
-Definition mcfg_case (md : mode) (c : sx) : list ev := [EvPanic].
+Open Scope N_scope.
+
+(* struct EcamEntry { base_addr: U64, segment: U16, start_bus: u8, end_bus: u8, _reserved: [u8; 4] } (packed) *)
+Definition ecam_entry (base seg sb eb : N) : flds :=
+  [F 8 base; F 2 seg; F 1 sb; F 1 eb; F 1 0; F 1 0; F 1 0; F 1 0].
+
+(* MCFG::new: header { "MCFG", length = 36 + 8, revision 1 }; cksum.append(header.as_bytes());
+   to_aml_bytes writes the header, sink.qword(0), then the entries *)
+Definition mcfg_new (c : sx) : option tbl :=
+  match c with
+  | SL [o; t; r] =>
+      do h <- sx_hdr [77; 67; 70; 71] 1 o t r;          (* "MCFG" *)
+      Some (tbl_new KMcfg h [])
+  | _ => None
+  end.
+
+(* add_ecam(base_addr, segment, start_bus, end_bus): update_header(entry.as_bytes()) with
+   len = data.len() as u32 = size_of::<EcamEntry>() = 16; checksum.delete(old_len); append(new_len); append(data) *)
+Definition mcfg_addition (s : tbl) (o : sx) : option addition :=
+  match o with
+  | SL [SA 1; SA base; SA seg; SA sb; SA eb] =>
+      Some {| a_style := SumAppend; a_claimed := 16; a_bytes := ser_flds (ecam_entry base seg sb eb);
+              a_returns := false; a_flag := t_flag s |}
+  | _ => None
+  end.
+
+Definition mcfg_step : mode -> tbl -> sx -> option (tbl * list ev) := add_step mcfg_addition.
+
+Definition mcfg_case (md : mode) (c : sx) : list ev :=
+  run_history (fun s => Some (tbl_image s)) (mcfg_step md) mcfg_new c.
